@@ -143,6 +143,33 @@ func runC08(c *Ctx) {
 	icancel()
 	ir.end, ir.done, ir.err = s.Now(), true, ierr
 
+	// true when Close follows a successful Initialize at once (no call in between): the leaks
+	// found then carry this in their signature
+	closeRightAfterInit := false
+	leakSig := func(kind, rest string) string {
+		if closeRightAfterInit {
+			return fmt.Sprintf("C08|close-right-after-initialize|mode=%s|%s%s", mode, kind, rest)
+		}
+		return fmt.Sprintf("C08|%s|mode=%s%s", kind, mode, rest)
+	}
+	// an application that retries the handshake on the same client after it failed (only after
+	// the fault; nothing is demanded of the retry but that it returns): whatever the first
+	// attempt left behind must still be released by Close
+	if ierr != nil && cl.Link == nil && t.Bool(60) {
+		c.SetPlan("retry_initialize", true)
+		s.Probe("c08.initialize_retried")
+		rr := &callRec{name: "initialize-retry", start: s.Now(), startedPreFault: false}
+		record(rr)
+		rctx, rcancel := newCtx()
+		_, rerr := cl.API.Initialize(rctx, &mcp.InitializeRequest{})
+		rcancel()
+		rr.end, rr.done, rr.err = s.Now(), true, rerr
+		if rerr == nil {
+			s.Probe("c08.initialize_retry_succeeded")
+			closeRightAfterInit = true
+		}
+	}
+
 	var tasks []*sim.Task
 	if ierr == nil {
 		nCallers := 1 + t.Draw(3)
@@ -238,7 +265,7 @@ func runC08(c *Ctx) {
 		if j := strings.Index(site, "#"); j >= 0 {
 			site = site[:j]
 		}
-		s.Violate(fmt.Sprintf("C08|goroutine-leak|mode=%s|%s", mode, site), "library goroutine %s is still alive after Close and after all connections are gone (fault %s at %q)", name, kind, s.FaultSite)
+		s.Violate(leakSig("goroutine-leak", "|"+site), "library goroutine %s is still alive after Close and after all connections are gone (fault %s at %q)", name, kind, s.FaultSite)
 	}
 	if cl.HTTP != nil {
 		if n := mcp.VerifClientPending(cl.HTTP); n > 0 {
@@ -252,15 +279,15 @@ func runC08(c *Ctx) {
 			continue
 		}
 		if !conn.BodyClosed && !conn.ReadToEOF && conn.ReadErr == "" {
-			s.Violate(fmt.Sprintf("C08|response-body-leak|mode=%s|%s", mode, conn.Method), "response body of c%d %s %s (status %d) was handed to the client and neither closed nor read to its end (fault %s)", conn.ID, conn.Method, conn.Path, conn.Status, kind)
+			s.Violate(leakSig("response-body-leak", "|"+conn.Method), "response body of c%d %s %s (status %d) was handed to the client and neither closed nor read to its end (fault %s)", conn.ID, conn.Method, conn.Path, conn.Status, kind)
 		}
 		if conn.Reached && !conn.Done() {
-			s.Violate(fmt.Sprintf("C08|server-handler-leak|mode=%s|%s", mode, conn.Method), "server handler of c%d %s %s is still running after the client closed everything", conn.ID, conn.Method, conn.Path)
+			s.Violate(leakSig("server-handler-leak", "|"+conn.Method), "server handler of c%d %s %s is still running after the client closed everything", conn.ID, conn.Method, conn.Path)
 		}
 	}
 	if w.Srv != nil && mode != "stateless" && mode != "stateless-json" {
 		if n := mcp.VerifGetSSEStreamCount(w.Srv); n != 0 {
-			s.Violate("C08|stream-registration-leak|mode="+mode, "%d GET streams are still registered on the server after the client is gone", n)
+			s.Violate(leakSig("stream-registration-leak", ""), "%d GET streams are still registered on the server after the client is gone", n)
 		}
 	}
 	if w.SSE != nil {
